@@ -615,19 +615,38 @@ func c13Determinism(c *Ctx, gd *Module) {
 // appendIsSortedLater: the result of the append is stored into a location that a later
 // sort.Slice/SortFunc call (dominating every return) sorts.
 func appendIsSortedLater(fn *ssa.Function, app *ssa.Call) bool {
-	target := ""
-	for _, u := range referrers(app) {
-		if st, ok := u.(*ssa.Store); ok {
-			target = describe(st.Addr)
+	// where does the grown slice end up? follow it through merges to the locations it is stored in
+	targets := map[string]bool{}
+	seen := map[ssa.Value]bool{}
+	var follow func(v ssa.Value, depth int)
+	follow = func(v ssa.Value, depth int) {
+		if seen[v] || depth > 6 {
+			return
+		}
+		seen[v] = true
+		for _, u := range referrers(v) {
+			switch x := u.(type) {
+			case *ssa.Store:
+				if x.Val == v {
+					targets[strings.TrimPrefix(describe(x.Addr), "&")] = true
+				}
+			case *ssa.Phi:
+				follow(x, depth+1)
+			case *ssa.ChangeType:
+				follow(x, depth+1)
+			}
 		}
 	}
-	if target == "" {
-		// appended into a local phi; accept if any sort of a slice occurs after the loop on that variable
-		target = "phi"
-	}
+	follow(app, 0)
 	for _, cs := range callsIn(fn, "sort.Slice", "sort.SliceStable", "sort.Strings", "slices.SortFunc", "slices.Sort", "sort.Sort") {
 		d := describe(argsOf(cs)[0])
-		if target != "phi" && strings.Contains(d, strings.TrimPrefix(target, "&")) {
+		for t := range targets {
+			if t != "" && strings.Contains(d, t) {
+				return true
+			}
+		}
+		// sorted directly as a value (the merged slice itself)
+		if seen[strip(argsOf(cs)[0])] {
 			return true
 		}
 	}
